@@ -172,3 +172,19 @@ CLAIMS["C11"] = {
     "note": "Trusted: get_dummies creates columns for all rows given; filter_to_active_features keeps only levels seen on fitting "
             "rows (C16.R3). 'Leaves every other number unchanged' is decided as absence of data/universe flow, not bit-for-bit.",
 }
+
+CLAIMS["C13"] = {
+    "technique": "shared-state analysis of the request loops: merge keys per configuration (constant folding), typestate of per-level "
+                 "caches (writer/reader attribute sets of the per-level steps, key expressions, copy discipline), who-may-draw from "
+                 "persistent generators inside the loops (call graph + run-once guard), name/value dependence of in-place column "
+                 "writes on the shared frames (def-use terms)",
+    "level": "Decides for every subset and order of levels, aggregates and estimands the ways requests can interfere through state "
+             "shared across the loops: cross-estimand joins are keyed on every shared column; every attribute carried from the "
+             "per-level unit step to the per-level aggregate step is keyed by the level, stored as a copy and read with the same key, "
+             "and the client pairs levels correctly; nothing inside the loops advances a persistent generator except behind the "
+             "run-once guard, and in-loop resampling builds its generator from the seed each time; each in-place column write on a "
+             "shared frame names every request parameter its value depends on. A relation between runs with different request "
+             "sets cannot be sampled by the suite's single fixed request.",
+    "note": "Trusted: in-place numpy/pandas operators mutate their target. Values computed by the estimators are not compared "
+            "numerically; absence of cross-request data flow is what is decided.",
+}
